@@ -603,6 +603,32 @@ func (en *Engine) applyContract(st *State, f *Frame, x *ssa.Call, fn *ssa.Functi
 			}
 		}
 	}
+	// results declared fresh by the callee's (proved) contract are fresh here
+	for _, e := range fc.Ensures {
+		if strings.Contains(e.Src, "fresh(") {
+			mark := func(v Value) {
+				switch x := v.(type) {
+				case SliceV:
+					if x.R != nil {
+						st.freshRegions[x.R] = true
+					}
+				case PtrV:
+					if x.R != nil {
+						st.freshRegions[x.R] = true
+					}
+				}
+			}
+			if tv, ok := res.(TupleV); ok {
+				for i, v := range tv {
+					if strings.Contains(e.Src, fmt.Sprintf("fresh(result%d)", i)) {
+						mark(v)
+					}
+				}
+			} else if strings.Contains(e.Src, "fresh(result)") {
+				mark(res)
+			}
+		}
+	}
 	for _, e := range fc.Ensures {
 		st.assume(sc.evalBool(e.Expr))
 	}
